@@ -395,10 +395,12 @@ func genKV(t *rapid.T, allowNull, allowTyped bool) []kvEntry {
 
 var c03Durations = [][]string{
 	{"90s", "1m30s", "1.5m"}, {"1h", "60m", "3600s"}, {"1500ms", "1.5s", "1s500ms"}, {"2h30m", "150m", "9000s"}, {"10s", "10000ms", "0h0m10s"},
+	{"250us", "250µs", "0.25ms", "250000ns"}, {"1h30m0s", "90m", "1.5h", "5400s", "1h30m"}, {"0s", "0", "0ms", "0h"}, {"100ms", "0.1s", "100000us"},
 }
 
 var c03Sizes = [][]any{
 	{"1gb", "1024m", 1073741824, "1g", "1048576k"}, {"64m", "65536k", 67108864, "64mb", "67108864"}, {"2k", 2048, "2kb", "2048b", "2048"}, {"512", 512, "512b"},
+	{"1.5g", "1536m", 1610612736, "1.5gb", "1.5GiB"}, {"1GiB", "1gib", "1024MiB", "1G", "1 gb"}, {"0", 0, "0b", "0k"}, {"10MB", "10m", "10Mb", "10485760"},
 }
 
 // ---- pair generators ----
